@@ -5,7 +5,7 @@
                          <root path> ; <path> | <text> [| lo hi lo hi ..] ; <path> | <text> [| ..] ...
                        (the optional third part of a file: inlay-hint request ranges for that file)
                        stdout: one JSON object per line
-                         {"files":[path..], "lens":[..], "sm_ok":bool, "bad":bool,
+                         {"files":[path..], "lens":[..], "sm_ok":bool, "closed":bool (SymbolClosed.sm_closedb of the joined state), "bad":bool,
                           "diagnostics":[per file [[lo,hi,"parse",msg] | [lo,hi,"index",class] ..]],
                           "symbols":[per file outline | null | {"panic":..}], "folding":[per file [[lo,hi]..] | null],
                           "links":[per file [[lo,hi,target file number]..] | null],
